@@ -59,10 +59,11 @@ type oracleLeaf struct {
 }
 
 type mctx struct {
-	r      *Rng
-	leaves []oracleLeaf
-	nextID int
-	cfg    regCfg
+	payDepth int
+	r        *Rng
+	leaves   []oracleLeaf
+	nextID   int
+	cfg      regCfg
 
 	illFormed bool
 }
@@ -276,7 +277,19 @@ func (c *mctx) genScript(depth int) []sop {
 }
 
 func (c *mctx) genPayload() *mval {
-	switch c.r.Intn(5) {
+	switch c.r.Intn(6) {
+	case 5:
+		// a panic value whose own printing panics: catchPanic re-raises, the panic leaves the
+		// printer it happened in (and, inside a nested printer, is caught by the enclosing method)
+		if c.payDepth < 2 {
+			c.payDepth++
+			m := c.genMeth(3, 9)
+			c.payDepth--
+			return m
+		}
+		m := &mval{k: mLeaf, goVal: "deep"}
+		m.id = c.newLeaf(m.goVal)
+		return m
 	case 4:
 		// a SafeFormatter as panic value that itself prints, through the SafePrinter's
 		// Print/Printf, operands whose methods panic again (a nested printer inside catchPanic)
